@@ -4,6 +4,7 @@ package main
 // overlay file zz_verif_rt.go of each package under test).
 
 import (
+	"math/big"
 	"fmt"
 	"go/types"
 	"sort"
@@ -46,9 +47,10 @@ func registerHarnessIntrinsics() {
 		"verifFail":   hFail,
 		"verifReach":  func(e *Exec, a []Value, s *ssa.CallCommon) Value { return &TupleV{} },
 		"verifObserve": func(e *Exec, a []Value, s *ssa.CallCommon) Value {
-			e.observes = append(e.observes, Observation{Name: e.mustConcreteString(a[0], "observe name"), Val: a[1]})
+			e.observes = append(e.observes, Observation{Name: e.mustConcreteString(a[0], "observe name"), Val: e.snapshotValue(a[1])})
 			return &TupleV{}
 		},
+		"verifNative": func(e *Exec, a []Value, s *ssa.CallCommon) Value { return e.tb.False() },
 		"verifAnd": func(e *Exec, a []Value, s *ssa.CallCommon) Value { return e.tb.And(a[0].(*Term), a[1].(*Term)) },
 		"verifOr":  func(e *Exec, a []Value, s *ssa.CallCommon) Value { return e.tb.Or(a[0].(*Term), a[1].(*Term)) },
 		"verifImplies": func(e *Exec, a []Value, s *ssa.CallCommon) Value {
@@ -148,6 +150,48 @@ func registerHarnessIntrinsics() {
 			arr := e.mkBytes(append([]*Term{}, b.hexDigits...), e.newObj("intrinsic", "bighex"))
 			n := e.c64(int64(len(b.hexDigits)))
 			return &SliceV{arr: arr, off: e.c64(0), len: n, cap: n}
+		},
+		// verifDecimalOf(hex, declen): a decimal text of declen digits denoting the number whose
+		// hexadecimal digits are hex.  Symbolically the decimal digits are free decimal digits and the
+		// math/big contract is told that SetString on this text yields exactly the digits hex (the
+		// conversion itself is not modelled); concretely / natively the real conversion.
+		"verifDecimalOf": func(e *Exec, a []Value, s *ssa.CallCommon) Value {
+			hx := e.sliceBytes(a[0].(*SliceV))
+			n := e.concLen(a[1].(*Term), "verifDecimalOf length")
+			allConst := true
+			for _, t := range hx {
+				if !t.IsConst() {
+					allConst = false
+				}
+			}
+			if allConst {
+				bs := make([]byte, len(hx))
+				for i, t := range hx {
+					bs[i] = byte(t.val)
+				}
+				v, ok := new(big.Int).SetString(string(bs), 16)
+				if !ok {
+					panic(pathAbort{"infeasible", "verifDecimalOf: not a hexadecimal number"})
+				}
+				d := v.Text(10)
+				if len(d) > n {
+					panic(pathAbort{"infeasible", "verifDecimalOf: number needs more decimal digits than the case provides"})
+				}
+				return e.constString(strings.Repeat("0", n-len(d)) + d)
+			}
+			ts := make([]*Term, n)
+			for i := range ts {
+				ts[i] = e.freshVar(fmt.Sprintf("dec[%d]", i), 8)
+				e.addPCKind(e.tb.And(e.tb.Ule(e.tb.Const(8, '0'), ts[i]), e.tb.Ule(ts[i], e.tb.Const(8, '9'))), 'a')
+			}
+			str := e.mkString(ts)
+			pre, _ := e.opaque["bigpreset"].(map[*Arr][]*Term)
+			if pre == nil {
+				pre = map[*Arr][]*Term{}
+				e.opaque["bigpreset"] = pre
+			}
+			pre[str.arr] = hx
+			return str
 		},
 		"verifTraceLeaks": hTraceLeaks,
 		"verifTraceClass": func(e *Exec, a []Value, s *ssa.CallCommon) Value {
@@ -328,6 +372,24 @@ func (e *Exec) checkObligation(name string, c *Term) {
 		}
 		return
 	}
+	// an indexed assertion (one obligation per byte) that already has several confirmed-to-be-sat
+	// instances in this harness instance is not decided again for every further index: the
+	// instance is reported as violated either way (never as proved)
+	base := name
+	if i := strings.IndexByte(name, '['); i > 0 {
+		base = name[:i]
+	}
+	vc, _ := e.opaque["violcount"].(map[string]int)
+	if vc == nil {
+		vc = map[string]int{}
+		e.opaque["violcount"] = vc
+	}
+	if base != name && vc[base] >= 4 {
+		ob.Status = "skipped"
+		ob.Note = "further index of an assertion already violated at 4 indices"
+		e.addPC(c)
+		return
+	}
 	t0 := time.Now()
 	neg := e.tb.Not(c)
 	as := append(e.slicePC(neg), neg)
@@ -378,6 +440,7 @@ func (e *Exec) checkObligation(name string, c *Term) {
 		e.addPCKind(c, 'p')
 	case "sat":
 		ob.Status = "violated"
+		vc[base]++
 		ob.Model = e.namedModel(r.Model)
 		ob.Digests = e.digestsFromModel(r.Model)
 		// continue under the assumption that the assertion holds, if that is possible
@@ -1011,4 +1074,28 @@ func hHTTPResp(e *Exec, a []Value, s *ssa.CallCommon) Value {
 	}
 	e.storeTrail(op.c, iv.v)
 	return e.tb.True()
+}
+
+// snapshotValue copies the bytes a string / byte slice currently denotes: an observation is the
+// value at the time of the call, also when the string aliases memory that is written later
+// (strings built with unsafe over pooled buffers).
+func (e *Exec) snapshotValue(v Value) Value {
+	snap := func(a *Arr) *Arr {
+		if a == nil || a.ro {
+			return a
+		}
+		for _, c := range a.cells {
+			if _, ok := c.v.(*Term); !ok {
+				return a
+			}
+		}
+		return e.newArr(a.elem, len(a.cells), e.newObj("intrinsic", "observation"), func(i int) Value { return a.cells[i].v })
+	}
+	switch x := v.(type) {
+	case *StrV:
+		return &StrV{arr: snap(x.arr), off: x.off, len: x.len}
+	case *SliceV:
+		return &SliceV{arr: snap(x.arr), off: x.off, len: x.len, cap: x.cap}
+	}
+	return v
 }
